@@ -343,6 +343,68 @@ func (h *harness) textStream(n int) {
 	}
 }
 
+// specialStream: every special scalar (token-like, invalid UTF-8, limits of int64, long tokens ...) alone, as an
+// array element, as an object value and as a key, each through two write option sets.
+func (h *harness) specialStream() {
+	ctx := h.ctx
+	var vals []any
+	for _, s := range ambiguousStrings {
+		vals = append(vals, s)
+	}
+	for _, s := range badUTF8Strings {
+		vals = append(vals, s)
+	}
+	for _, s := range []string{"", "null ", "Null", "truex", "a b", "1", "1e5", "0x10", ".5", "e", "-", "--", "-x", "a-", "a:b", "a,b", "@", "~", "\u00e9", "\u2028", "\u2029", "\ufffd", "\x7f", "\x00",
+		strings.Repeat("a", 64), strings.Repeat("a", 65), strings.Repeat("\u00e9", 32), strings.Repeat("\u00e9", 33), "a" + strings.Repeat("\u00e9", 32)} {
+		vals = append(vals, s)
+	}
+	for _, n := range []int64{9223372036854775799, 9223372036854775800, 9223372036854775807, -9223372036854775807, -9223372036854775808, 0, -1} {
+		vals = append(vals, n)
+	}
+	for _, n := range []string{"9223372036854775800", "9223372036854775808", "-9223372036854775808", "-9223372036854775809", "123456789012345678901234567890"} {
+		vals = append(vals, json.Number(n))
+	}
+	for i, v := range vals {
+		docs := []any{v, []any{v, v}, map[string]any{"k": v}}
+		if s, isStr := v.(string); isStr {
+			docs = append(docs, map[string]any{s: int64(1), "z": s})
+		}
+		for j, doc := range docs {
+			vterm, ok := jvTerm(doc)
+			if !ok {
+				continue
+			}
+			for c := 0; c < 2; c++ {
+				wo := writeOpts[(i*7+j*3+c*11+ctx.Rng.Intn(len(writeOpts)))%len(writeOpts)]
+				scope := slip.NewScope()
+				scope.Let(slip.Symbol("b"), newBag(deepCopy(doc)))
+				src := "(bag-write b " + wo.args + ")"
+				out := common.EvalIn(scope, src)
+				desc := map[string]any{"stream": "special", "doc": show(doc), "write": src}
+				text, isStr := out.Value.(slip.String)
+				if out.Err != "" || !isStr {
+					ctx.Violate("bag-write failed on bag data", desc, out.Err+": "+out.Msg, "a string")
+					continue
+				}
+				re, errMsg, via := parseVia(ctx.Rng, string(text), false)
+				reTerm, reOK := optJv(re, errMsg)
+				desc["text"], desc["parsed-via"] = string(text), via
+				if errMsg != "" {
+					desc["reparsed"] = "error: " + errMsg
+				} else {
+					desc["reparsed"] = show(re)
+				}
+				if !reOK {
+					h.implOnlyText(doc, re, desc)
+					continue
+				}
+				ctx.Hist("special:" + wo.kind)
+				h.add(fmt.Sprintf("CText %s %s %s %s", wo.kind, vterm, gBytes(string(text)), reTerm), desc, "S|"+wo.kind+"|"+vterm)
+			}
+		}
+	}
+}
+
 func (h *harness) parseStream(n int) {
 	ctx := h.ctx
 	for i := 0; i < n; i++ {
